@@ -230,6 +230,9 @@ def judgeBlock (tl : List String) (cr : List (Nat × List String)) (warns : List
   -- "key: value" lines in front of the table
   let thdr := tl.takeWhile fun s => !s.toList.contains bar
   let tl := tl.dropWhile fun s => !s.toList.contains bar
+  -- no line of the laid-out table (header, rows, footnotes) ends in a blank; the "key: value" lines
+  -- in front of it are compared with the CSV's verbatim (an empty value leaves "key: " in both)
+  if tl.any (fun s => s.toList.getLast? == some ' ') then v := v.merge { layout := some "trailingblank" }
   let chdr := cr.takeWhile fun r => r.2.length == 1
   let cr := cr.dropWhile fun r => r.2.length == 1
   if thdr != chdr.map (fun r => r.2.headD "") then v := v.merge (failAgree "tablekeys")
@@ -349,7 +352,6 @@ def judge (text csv warn : String) : Verdict := Id.run do
   let tlines := (text.splitOn "\n")
   let tlines := if tlines.getLast? == some "" then tlines.dropLast else tlines
   let mut v : Verdict := {}
-  if tlines.any (fun s => s.toList.getLast? == some ' ') then v := v.merge { layout := some "trailingblank" }
   let recs := parseCsv csv
   let numbered := (List.range recs.length).map (· + 1) |>.zip recs
   let tb := splitBlocks (fun (s : String) => s.isEmpty) tlines
